@@ -2,6 +2,10 @@
 // plus the property's own predicates evaluated in long double on the real classes for float, double and long double.
 #include "common.h"
 #include <cctype>
+#include <typeinfo>
+#include <unistd.h>
+#include <fcntl.h>
+#include <sys/wait.h>
 #include <Eigen/Core>
 #include <Spectra/LinAlg/TridiagEigen.h>
 #include <Spectra/LinAlg/UpperHessenbergSchur.h>
@@ -283,6 +287,333 @@ static std::vector<double> gen_hess(Rng& g, int n, int pat, int bigexp) {
     return v;
 }
 
+// ================================================================== histories on ONE object, views, accessor orders
+// Blind spots closed here (seeded-change experiments): (1) every stream above uses an object once (construct -> compute -> query), so a member
+// that a second compute() fails to reset is invisible; (2) every matrix argument above is an owning contiguous matrix, so code that ignores the
+// outer stride of a block / Map / Ref is invisible; (3) every accessor is called once, in one order.
+//
+// A history is a list of steps on one object of one class:
+//   C mode vseed n <data>   compute(M)        mode % 10 = how M is handed over: 0 owning matrix, 1 block of a larger matrix, 2 Map with outer stride,
+//                                             3 a named `const Ref<const Matrix>` of a block, 5 transpose expression (Ref must copy), 6 Map with inner stride 2
+//                                             (Ref must copy); mode >= 10: `Class tmp(M); obj = tmp;` (matrix constructor; object untouched if it throws).
+//                                             vseed: seed of the view geometry (paddings, canary values); data as in the streams above
+//   X rows cols             compute(rows x cols zero matrix), rows != cols  -> std::invalid_argument
+//   Q k                     accessor k (trideig/hesseig: 0 eigenvalues() 1 eigenvectors(); schur: 0 matrix_T() 1 matrix_U())
+//   W k rows cols <data>    schur: swap_T (k=0) / swap_U (k=1) with a caller matrix
+// Oracle (float, double, long double), all comparisons on bit patterns:
+//   * after a successful compute every accessor call, repeated and in any order, returns exactly what a FRESH object returns for the same matrix
+//     handed over as an owning matrix (two fresh objects, queried in the orders 0,1 and 1,0,1,0; the second one built by the matrix constructor);
+//     swap_* hands back exactly the member and installs exactly the caller's matrix;
+//   * before any compute, and after a compute that threw std::runtime_error (iteration limit), every accessor throws std::logic_error: numbers of
+//     an unfinished iteration or of the PREVIOUS matrix are never handed back;  after std::invalid_argument (nothing computed) the object is either
+//     unchanged or "not computed";
+//   * a reused object throws on M iff a fresh one does;
+//   * the caller's storage (the view and the canaries around it) is bit-identical after the call.
+// Correspondence (double): the same line is answered by the Lean object model (Model/C09Object.lean: one state threaded through all steps).
+struct HStep { char kind = 'C'; int mode = 0; unsigned vseed = 0; int n = 0, rows = 0, cols = 0, k = 0; std::vector<double> data; std::string pat; };
+struct Hist { int cls = 0; std::vector<HStep> steps; };
+static const char* CLSNAME[3] = {"trideig", "schur", "hesseig"};
+
+static std::string hist_line(const Hist& h) {
+    std::string s = std::string("hist ") + CLSNAME[h.cls];
+    for (const HStep& st : h.steps) {
+        if (st.kind == 'C') { s += " C " + str(st.mode) + " " + str(st.vseed) + " " + str(st.n); for (double x : st.data) s += " " + str(dbits(x)); }
+        else if (st.kind == 'X') s += " X " + str(st.rows) + " " + str(st.cols);
+        else if (st.kind == 'Q') s += " Q " + str(st.k);
+        else { s += " W " + str(st.k) + " " + str(st.rows) + " " + str(st.cols); for (double x : st.data) s += " " + str(dbits(x)); }
+    }
+    return s;
+}
+static bool parse_hist(const std::string& line, Hist& h) {
+    std::istringstream is(line); std::vector<std::string> tk; std::string w; while (is >> w) tk.push_back(w);
+    if (tk.size() < 2 || tk[0] != "hist") return false;
+    h.cls = tk[1] == "trideig" ? 0 : tk[1] == "schur" ? 1 : tk[1] == "hesseig" ? 2 : -1; if (h.cls < 0) return false;
+    size_t i = 2; auto num = [&](size_t j) { return j < tk.size() ? std::strtoull(tk[j].c_str(), nullptr, 10) : 0ull; };
+    while (i < tk.size()) {
+        HStep st; st.kind = tk[i][0]; st.pat = "replay";
+        if (st.kind == 'C') { st.mode = (int) num(i + 1); st.vseed = (unsigned) num(i + 2); st.n = (int) num(i + 3); size_t cnt = h.cls == 0 ? 2 * (size_t) st.n - 1 : (size_t) st.n * st.n;
+            if (st.n < 1 || i + 4 + cnt > tk.size()) return false; for (size_t j = 0; j < cnt; j++) st.data.push_back(bitsd(num(i + 4 + j))); i += 4 + cnt; }
+        else if (st.kind == 'X') { st.rows = (int) num(i + 1); st.cols = (int) num(i + 2); i += 3; }
+        else if (st.kind == 'Q') { st.k = (int) num(i + 1); i += 2; }
+        else if (st.kind == 'W') { st.k = (int) num(i + 1); st.rows = (int) num(i + 2); st.cols = (int) num(i + 3); size_t cnt = (size_t) st.rows * st.cols;
+            if (i + 4 + cnt > tk.size()) return false; for (size_t j = 0; j < cnt; j++) st.data.push_back(bitsd(num(i + 4 + j))); i += 4 + cnt; }
+        else return false;
+        h.steps.push_back(st);
+    }
+    return true;
+}
+
+static std::string ex_name(const std::exception& e) {
+    if (dynamic_cast<const std::invalid_argument*>(&e)) return "std::invalid_argument";
+    if (dynamic_cast<const std::logic_error*>(&e)) return "std::logic_error";
+    if (dynamic_cast<const std::runtime_error*>(&e)) return "std::runtime_error";
+    return "std::exception";
+}
+
+// same bit pattern (long double has padding bytes: compare value + sign, NaN == NaN)
+template <class S> static bool same_bits(S a, S b) { if (a != a || b != b) return a != a && b != b; return a == b && std::signbit(a) == std::signbit(b); }
+
+// result of one accessor call (complex values as re, im pairs)
+template <class S> struct QRes { bool threw = false; std::string ex; long r = 0, c = 0; std::vector<S> v; };
+template <class S> static long first_diff(const QRes<S>& a, const QRes<S>& b) {   // -1: identical
+    if (a.threw != b.threw) return 0; if (a.threw) return a.ex == b.ex ? -1 : 0;
+    if (a.r != b.r || a.c != b.c || a.v.size() != b.v.size()) return 0;
+    for (size_t i = 0; i < a.v.size(); i++) if (!same_bits(a.v[i], b.v[i])) return (long) i;
+    return -1;
+}
+template <class S, class M> static void fill_q(QRes<S>& q, const M& m) { q.r = m.rows(); q.c = m.cols(); q.v.assign(m.data(), m.data() + m.size()); }
+template <class S, class M> static void fill_qc(QRes<S>& q, const M& m) { q.r = m.rows(); q.c = m.cols(); q.v.clear(); for (long j = 0; j < m.cols(); j++) for (long i = 0; i < m.rows(); i++) { q.v.push_back(m(i, j).real()); q.v.push_back(m(i, j).imag()); } }
+
+// uniform wrappers around the three classes
+template <class S> struct WTri {
+    typedef Spectra::TridiagEigen<S> Cls; typedef Eigen::Matrix<S, Eigen::Dynamic, Eigen::Dynamic> Mat; Cls o;
+    static const int cls = 0; static const bool has_swap = false;
+    template <class V> void compute(const V& v) { o.compute(v); }
+    template <class V> void construct(const V& v) { Cls tmp(v); o = tmp; }
+    QRes<S> query(int k) { QRes<S> q; try { if (k == 0) fill_q(q, o.eigenvalues()); else fill_q(q, o.eigenvectors()); } catch (const std::exception& e) { q.threw = true; q.ex = ex_name(e) + " " + e.what(); } return q; }
+    void swap(int, Mat&) {}
+    static Mat build(int n, const std::vector<double>& d) { Mat T = Mat::Zero(n, n); for (int i = 0; i < n; i++) T(i, i) = (S) d[i]; for (int i = 0; i + 1 < n; i++) { T(i + 1, i) = (S) d[n + i]; T(i, i + 1) = (S) d[n + i]; } return T; }
+};
+template <class S> struct WSch {
+    typedef Spectra::UpperHessenbergSchur<S> Cls; typedef Eigen::Matrix<S, Eigen::Dynamic, Eigen::Dynamic> Mat; Cls o;
+    static const int cls = 1; static const bool has_swap = true;
+    template <class V> void compute(const V& v) { o.compute(v); }
+    template <class V> void construct(const V& v) { Cls tmp(v); o = tmp; }
+    QRes<S> query(int k) { QRes<S> q; try { if (k == 0) fill_q(q, o.matrix_T()); else fill_q(q, o.matrix_U()); } catch (const std::exception& e) { q.threw = true; q.ex = ex_name(e) + " " + e.what(); } return q; }
+    void swap(int k, Mat& other) { if (k == 0) o.swap_T(other); else o.swap_U(other); }
+    static Mat build(int n, const std::vector<double>& d) { return mat_of<S>(n, d); }
+};
+template <class S> struct WEig {
+    typedef Spectra::UpperHessenbergEigen<S> Cls; typedef Eigen::Matrix<S, Eigen::Dynamic, Eigen::Dynamic> Mat; Cls o;
+    static const int cls = 2; static const bool has_swap = false;
+    template <class V> void compute(const V& v) { o.compute(v); }
+    template <class V> void construct(const V& v) { Cls tmp(v); o = tmp; }
+    QRes<S> query(int k) { QRes<S> q; try { if (k == 0) fill_qc(q, o.eigenvalues()); else fill_qc(q, o.eigenvectors()); } catch (const std::exception& e) { q.threw = true; q.ex = ex_name(e) + " " + e.what(); } return q; }
+    void swap(int, Mat&) {}
+    static Mat build(int n, const std::vector<double>& d) { return mat_of<S>(n, d); }
+};
+
+// hand the matrix A to f through the requested kind of view; afterwards the caller's storage must be bit-identical
+struct ViewOutcome { bool threw = false; std::string ex; std::string viol; };
+template <class S, class F> static ViewOutcome with_view(const Eigen::Matrix<S, Eigen::Dynamic, Eigen::Dynamic>& A, int vmode, unsigned vseed, F&& f) {
+    typedef Eigen::Matrix<S, Eigen::Dynamic, Eigen::Dynamic> Mat;
+    ViewOutcome vo; const long r = A.rows(), c = A.cols();
+    Rng g(vseed, 97);
+    const int p0 = g.range(0, 3), p1 = g.range(0, 3), q0 = g.range(0, 3), q1 = g.range(0, 3), ck = g.range(0, 2);
+    // canaries: NaN, huge finite, or values of the data's own magnitude (so that a stray read is neither masked nor only visible as NaN)
+    auto canary = [&]() -> S { return ck == 0 ? std::numeric_limits<S>::quiet_NaN() : ck == 1 ? (S) ((g.coin() ? 1.0 : -1.0) * 3.0e30) : (S) (g.sym() * 4.0 + (g.coin() ? 0.5 : -0.5)); };
+    auto guarded = [&](auto&& call) { try { call(); } catch (const std::exception& e) { vo.threw = true; vo.ex = ex_name(e) + " " + e.what(); } };
+    auto same_buf = [&](const S* x, const S* y, size_t nn) { for (size_t i = 0; i < nn; i++) if (!same_bits(x[i], y[i])) return false; return true; };
+    switch (vmode) {
+    case 1: case 3: {
+        Mat B(r + p0 + p1, c + q0 + q1); for (long i = 0; i < B.size(); i++) B.data()[i] = canary();
+        B.block(p0, q0, r, c) = A; const Mat B0 = B;
+        if (vmode == 1) guarded([&] { f(B.block(p0, q0, r, c)); });
+        else { const Eigen::Ref<const Mat> rf(B.block(p0, q0, r, c)); guarded([&] { f(rf); }); }
+        if (!same_buf(B.data(), B0.data(), (size_t) B.size())) vo.viol = "the caller's matrix (block + surrounding canaries) was modified";
+        break; }
+    case 2: {
+        const long stride = r + p0 + p1 + ((p0 + p1) == 0 ? 1 : 0); std::vector<S> buf((size_t) (q0 + stride * c + q1 + 1)); for (S& x : buf) x = canary();
+        for (long j = 0; j < c; j++) for (long i = 0; i < r; i++) buf[(size_t) (q0 + i + j * stride)] = A(i, j);
+        const std::vector<S> buf0 = buf;
+        Eigen::Map<const Mat, 0, Eigen::OuterStride<> > mp(buf.data() + q0, r, c, Eigen::OuterStride<>(stride));
+        guarded([&] { f(mp); });
+        if (!same_buf(buf.data(), buf0.data(), buf.size())) vo.viol = "the caller's buffer (Map with outer stride + canaries) was modified";
+        break; }
+    case 5: { const Mat At = A.transpose(); const Mat At0 = At; guarded([&] { f(At.transpose()); }); if (!same_buf(At.data(), At0.data(), (size_t) At.size())) vo.viol = "the caller's matrix was modified"; break; }
+    case 6: {
+        const long outer = 2 * r + p0 + 1; std::vector<S> buf((size_t) (outer * c + 2)); for (S& x : buf) x = canary();
+        for (long j = 0; j < c; j++) for (long i = 0; i < r; i++) buf[(size_t) (2 * i + j * outer)] = A(i, j);
+        const std::vector<S> buf0 = buf;
+        Eigen::Map<const Mat, 0, Eigen::Stride<Eigen::Dynamic, Eigen::Dynamic> > mp(buf.data(), r, c, Eigen::Stride<Eigen::Dynamic, Eigen::Dynamic>(outer, 2));
+        guarded([&] { f(mp); });
+        if (!same_buf(buf.data(), buf0.data(), buf.size())) vo.viol = "the caller's buffer (Map with inner stride 2 + canaries) was modified";
+        break; }
+    default: { const Mat A0 = A; guarded([&] { f(A); }); if (!same_buf(A.data(), A0.data(), (size_t) A.size())) vo.viol = "the caller's matrix was modified"; break; }
+    }
+    return vo;
+}
+
+static std::map<std::string, int> g_hist_reported;
+static void hist_fail(Out& out, const std::string& sig, const std::string& what, const Hist& h, const char* scalar, size_t step, const std::string& pat, int n, const std::string& extra) {
+    out.count("hist_fail_" + sig);
+    if (++g_hist_reported[sig + scalar + CLSNAME[h.cls]] > 3) return;   // at most 3 records per (signature, class, scalar): each carries the whole history
+    Hist cut = h; cut.steps.resize(step + 1);                                // the history up to the failing step is the replay
+    out.fail(sig, std::string(CLSNAME[h.cls]) + "<" + scalar + "> history step " + str(step) + ": " + what,
+             "{\"op\":\"hist\",\"cls\":\"" + std::string(CLSNAME[h.cls]) + "\",\"scalar\":\"" + scalar + "\",\"n\":" + str(n) + ",\"pattern\":\"" + pat + "\",\"step\":" + str(step) + extra + ",\"line\":\"" + hist_line(cut) + "\"}");
+}
+
+template <class S> static std::string show_q(const QRes<S>&, bool) { return ""; }
+template <> std::string show_q<double>(const QRes<double>& q, bool canon) {
+    if (q.threw) return "throw " + q.ex;
+    std::string s = "ok " + str(q.r) + " " + str(q.c); for (double x : q.v) s += " " + fb(canon ? x + 0.0 : x); return s;
+}
+
+template <class S, class W> static void run_hist(const Hist& h, Out& out, bool corr) {
+    typedef Eigen::Matrix<S, Eigen::Dynamic, Eigen::Dynamic> Mat;
+    const char* sc = SName<S>::get(); const std::string cn = CLSNAME[h.cls];
+    W obj;
+    enum { NONE, OK, FAILED } last = NONE;        // outcome of the last compute that reached the object
+    bool lenient = false;                         // an invalid_argument call happened since: "unchanged" and "not computed" are both acceptable
+    QRes<S> ref[2], stale[2]; bool ref_known[2] = {true, true}, stale_known[2] = {false, false};   // fresh object: empty members
+    std::string rs; std::string pat = "none"; int ncur = 0;
+    auto emit = [&](const std::string& x) { if (corr) { if (!rs.empty()) rs += " | "; rs += x; } };
+    for (size_t si = 0; si < h.steps.size(); si++) {
+        const HStep& st = h.steps[si];
+        if (st.kind == 'C') {
+            pat = st.pat; ncur = st.n;
+            const Mat A = W::build(st.n, st.data);
+            const bool ctor = st.mode >= 10;
+            ViewOutcome vo = with_view<S>(A, st.mode % 10, st.vseed, [&](const auto& v) { if (ctor) obj.construct(v); else obj.compute(v); });
+            out.count("hist_compute"); out.count("hist_compute_mode_" + str(st.mode)); out.count("view_canary_checks");
+            if (!vo.viol.empty()) hist_fail(out, "input-modified", vo.viol, h, sc, si, pat, ncur, "");
+            emit(vo.threw ? "throw " + vo.ex : "ok");
+            // what a fresh object does with the same matrix, handed over as an owning matrix
+            W f1; bool fthrew = false; try { f1.compute(A); } catch (const std::exception&) { fthrew = true; }
+            if (fthrew != vo.threw) { hist_fail(out, "reuse-throw-mismatch", std::string("compute() ") + (vo.threw ? "threw (" + vo.ex + ")" : "returned") + " on the reused object / view, but " + (fthrew ? "threw" : "returned") + " on a fresh object with an owning matrix", h, sc, si, pat, ncur, ""); }
+            if (vo.threw) {
+                out.count("hist_compute_threw"); out.count("hist_compute_threw_" + cn);
+                if (!ctor) { if (last == OK) for (int k = 0; k < 2; k++) { stale[k] = ref[k]; stale_known[k] = ref_known[k]; } last = FAILED; ref_known[0] = ref_known[1] = false; lenient = false; }   // `Class tmp(M)` threw: obj untouched
+            } else {
+                last = OK; lenient = false;
+                if (!fthrew) {
+                    ref[0] = f1.query(0); ref[1] = f1.query(1); ref_known[0] = ref_known[1] = true;
+                    // a second fresh object, built by the matrix constructor, queried in the other order, repeatedly
+                    W f2; bool f2ok = true; try { f2.construct(A); } catch (const std::exception&) { f2ok = false; }
+                    if (f2ok) { const int ord[4] = {1, 0, 1, 0}; for (int t = 0; t < 4; t++) { QRes<S> q = f2.query(ord[t]); out.count("hist_cmp_fresh_orders");
+                        if (first_diff(q, ref[ord[t]]) >= 0) { hist_fail(out, "accessor-order", "two FRESH objects disagree: accessor " + str(ord[t]) + " called in the order 1,0,1,0 on an object built by the matrix constructor differs from the order 0,1 after compute()", h, sc, si, pat, ncur, ""); break; } } }
+                    else hist_fail(out, "reuse-throw-mismatch", "the matrix constructor threw on a matrix on which compute() returns", h, sc, si, pat, ncur, "");
+                } else ref_known[0] = ref_known[1] = false;
+            }
+        } else if (st.kind == 'X') {
+            const Mat A = Mat::Zero(st.rows, st.cols);
+            ViewOutcome vo = with_view<S>(A, 0, 0, [&](const auto& v) { obj.compute(v); });
+            out.count("hist_compute_nonsquare");
+            emit(vo.threw ? "throw " + vo.ex : "ok");
+            if (!vo.threw || vo.ex.find("std::invalid_argument") != 0) hist_fail(out, "nonsquare-accepted", "compute() on a " + str(st.rows) + "x" + str(st.cols) + " matrix did not throw std::invalid_argument", h, sc, si, pat, ncur, "");
+            lenient = true;
+        } else if (st.kind == 'Q') {
+            const int k = st.k;
+            QRes<S> q = obj.query(k);
+            out.count("hist_query"); out.count(last == NONE ? "hist_query_before_compute" : last == OK ? "hist_query_after_ok" : "hist_query_after_failed_compute");
+            emit(show_q<S>(q, h.cls == 2 && k == 1));
+            const bool is_logic = q.threw && q.ex.find("std::logic_error") == 0;
+            if (q.threw && !is_logic) hist_fail(out, "accessor-exception", "accessor " + str(k) + " threw " + q.ex, h, sc, si, pat, ncur, "");
+            else if (last == NONE) { if (!q.threw) hist_fail(out, "accessor-before-compute", "accessor " + str(k) + " returned a " + str(q.r) + "x" + str(q.c) + " result on an object that has never computed anything", h, sc, si, pat, ncur, ""); }
+            else if (last == OK) {
+                if (q.threw) { if (!lenient) hist_fail(out, "accessor-throws-after-compute", "accessor " + str(k) + " threw " + q.ex + " after a successful compute()", h, sc, si, pat, ncur, ""); }
+                else if (ref_known[k]) { out.count("hist_cmp_fresh");
+                    long d = first_diff(q, ref[k]);
+                    if (d >= 0) hist_fail(out, "reuse-differs-from-fresh", "accessor " + str(k) + " on the reused object returns " + str(q.r) + "x" + str(q.c) + ", a fresh object " + str(ref[k].r) + "x" + str(ref[k].c) +
+                                          (q.v.size() == ref[k].v.size() && (size_t) d < q.v.size() ? "; first difference at flat index " + str(d) + ": " + str((double) q.v[d]) + " vs " + str((double) ref[k].v[d]) : std::string("; shapes differ")), h, sc, si, pat, ncur, ""); }
+            } else {   // FAILED: the last compute threw std::runtime_error
+                if (!q.threw) {
+                    const bool prev = stale_known[k] && first_diff(q, stale[k]) < 0;
+                    hist_fail(out, "accessor-after-failed-compute", "accessor " + str(k) + " returned a " + str(q.r) + "x" + str(q.c) + " result although the last compute() on this object threw (iteration limit): " +
+                              (prev ? "bit-identical to the results of the PREVIOUS matrix" : "the unfinished iteration state") + "; a fresh object throws std::logic_error here", h, sc, si, pat, ncur,
+                              std::string(",\"stale\":\"") + (prev ? "previous" : "partial") + "\"");
+                }
+            }
+        } else if (st.kind == 'W' && W::has_swap) {
+            Mat other(st.rows, st.cols); for (long i = 0; i < other.size(); i++) other.data()[i] = (S) st.data[(size_t) i];
+            QRes<S> given; fill_q(given, other);
+            obj.swap(st.k, other);
+            QRes<S> back; fill_q(back, other);
+            out.count("hist_swap");
+            emit(show_q<S>(back, false));
+            if (ref_known[st.k] && first_diff(back, ref[st.k]) >= 0) hist_fail(out, "swap-wrong", "swap_" + std::string(st.k == 0 ? "T" : "U") + " did not hand back the member", h, sc, si, pat, ncur, "");
+            ref[st.k] = given; ref_known[st.k] = true; stale_known[st.k] = false;
+        }
+    }
+    out.count("hist_" + cn + "_" + sc);
+    if (corr) { out.corr(hist_line(h), rs); out.count("corr_hist_" + cn); }
+}
+
+template <class S> static void run_hist_cls(const Hist& h, Out& out, bool corr) {
+    if (h.cls == 0) run_hist<S, WTri<S> >(h, out, corr); else if (h.cls == 1) run_hist<S, WSch<S> >(h, out, corr); else run_hist<S, WEig<S> >(h, out, corr);
+}
+
+// TridiagEigen on a 1x1 matrix: run in a child process (the unchanged tree dies in an Eigen assertion: maxCoeff() of the empty sub-diagonal)
+static int probe_tri_1x1() {   // 0 ok, 1 died, 2 wrong numbers
+    std::fflush(nullptr);
+    pid_t p = fork();
+    if (p < 0) return 0;
+    if (p == 0) {
+        int fd = open("/dev/null", O_WRONLY); if (fd >= 0) { dup2(fd, 2); dup2(fd, 1); }
+        Eigen::MatrixXd A(1, 1); A(0, 0) = 3.0; bool ok = false;
+        try { Spectra::TridiagEigen<double> e; e.compute(A); ok = e.eigenvalues().size() == 1 && e.eigenvalues()[0] == 3.0 && e.eigenvectors().rows() == 1 && e.eigenvectors()(0, 0) == 1.0; } catch (...) { ok = false; }
+        _exit(ok ? 0 : 3);
+    }
+    int st = 0; if (waitpid(p, &st, 0) < 0) return 0;
+    if (WIFEXITED(st) && WEXITSTATUS(st) == 0) return 0;
+    return WIFEXITED(st) && WEXITSTATUS(st) == 3 ? 2 : 1;
+}
+
+// ---- history generator
+// Day's matrix at scale 2^-8..2^-14 next to decoupled entries of magnitude 1: finite, well inside the scaling assumption, and the Francis iteration
+// hits the 40n limit on it in UpperHessenbergSchur AND (the pre-scaling divides by the largest entry, 1) in UpperHessenbergEigen for most h
+static std::vector<double> gen_day_big(Rng& g, int n) {
+    std::vector<double> v((size_t) n * n, 0.0); auto H = [&](int i, int j) -> double& { return v[i + (size_t) j * n]; };
+    const double h = std::pow(10.0, -2.0 - 4.0 * g.unit()), sc = std::ldexp(1.0, -g.range(8, 14));
+    H(0, 1) = sc; H(1, 0) = sc; H(1, 2) = h * sc; H(2, 1) = -h * sc; H(2, 3) = sc; H(3, 2) = sc;
+    for (int j = 4; j < n; j++) for (int i = 4; i <= j; i++) H(i, j) = i == j ? (g.coin() ? 1.0 : -1.0) * (0.5 + 0.5 * g.unit()) : g.sym();
+    return v;
+}
+static const char* MKIND[] = {"generic", "zero", "diagonal", "triangular", "thrower", "one_by_one", "repeat", "identity"};
+static std::vector<double> gen_hist_matrix(Rng& g, int cls, int& n, int kind, int bigexp, std::string& pat, const std::vector<double>& prev, int prevn) {
+    pat = MKIND[kind];
+    if (kind == 6 && prevn > 0) { n = prevn; return prev; }
+    if (kind == 5) n = 1;
+    if (cls == 0) {
+        if (kind == 1) return std::vector<double>(2 * n - 1, 0.0);
+        if (kind == 2 || kind == 3) { std::vector<double> v(2 * n - 1, 0.0); for (int i = 0; i < n; i++) v[i] = g.coin(0.3) ? (double) g.range(-2, 2) : g.sym(); return v; }
+        if (kind == 7) { std::vector<double> v(2 * n - 1, 0.0); for (int i = 0; i < n; i++) v[i] = 1.0; return v; }
+        if (kind == 4) { if (n < 2) n = 2; std::vector<double> v = gen_tridiag(g, n, 0, bigexp); v[g.below(v.size())] = std::numeric_limits<double>::quiet_NaN(); return v; }   // the only way to the iteration limit
+        int p = (int) g.below(NTPAT); pat = std::string("generic_") + TPAT[p]; return gen_tridiag(g, n, p, bigexp);
+    }
+    if (kind == 1) return std::vector<double>((size_t) n * n, 0.0);
+    if (kind == 2) { std::vector<double> v((size_t) n * n, 0.0); for (int i = 0; i < n; i++) v[i + (size_t) i * n] = g.coin(0.3) ? (double) g.range(-2, 2) : g.sym(); return v; }
+    if (kind == 3) { std::vector<double> v((size_t) n * n, 0.0); for (int j = 0; j < n; j++) for (int i = 0; i <= j; i++) v[i + (size_t) j * n] = g.sym(); return v; }
+    if (kind == 7) { std::vector<double> v((size_t) n * n, 0.0); for (int i = 0; i < n; i++) v[i + (size_t) i * n] = 1.0; return v; }
+    if (kind == 4) { if (n < 5) n = 5; return gen_day_big(g, n); }
+    if (n == 1) { pat = "generic_1x1"; return std::vector<double>(1, g.coin(0.3) ? (double) g.range(-2, 2) : g.sym() * (g.coin(0.2) ? pw10(g.coin() ? bigexp : -bigexp) : 1.0)); }   // gen_hess needs n >= 2
+    int p = (int) g.below(NHPAT); pat = std::string("generic_") + HPAT[p]; return gen_hess(g, n, p, bigexp);
+}
+static Hist gen_hist(Rng& g, int cls, int bigexp, bool thorough, bool tri1ok, Out* cnt) {
+    Hist h; h.cls = cls;
+    const int nmin = cls == 0 && !tri1ok ? 2 : 1, nmax = thorough ? 16 : 9;
+    auto queries = [&](int lo, int hi) { int nq = g.range(lo, hi); for (int t = 0; t < nq; t++) {
+        if (cls == 1 && g.coin(0.12)) { HStep w; w.kind = 'W'; w.k = (int) g.below(2); w.rows = g.range(0, 4); w.cols = g.coin(0.7) ? w.rows : g.range(0, 4); w.data.resize((size_t) w.rows * w.cols); for (double& x : w.data) x = g.sym(); h.steps.push_back(w); }
+        else { HStep q; q.kind = 'Q'; q.k = (int) g.below(2); h.steps.push_back(q); if (g.coin(0.3)) h.steps.push_back(q); } } };   // same accessor twice in a row, too
+    if (g.coin(0.15)) queries(1, 2);                                 // accessors on an object that has not computed anything
+    if (g.coin(0.05)) { HStep x; x.kind = 'X'; x.rows = g.range(1, 4); x.cols = x.rows + g.range(1, 2); h.steps.push_back(x); queries(0, 1); }
+    const int ncomp = g.range(2, thorough ? 6 : 4);
+    std::vector<double> prev; int prevn = 0; bool after_throw = false;
+    for (int c = 0; c < ncomp; c++) {
+        HStep st; st.kind = 'C';
+        int n; const char* rel = "first";
+        if (prevn == 0) n = g.range(std::max(nmin, 2), nmax);
+        else { double u = g.unit(); if (u < 0.45) { n = prevn; rel = "same"; } else if (u < 0.68) { n = g.range(nmin, std::max(nmin, prevn - 1)); rel = n < prevn ? "smaller" : "same"; } else { n = g.range(prevn + 1, std::max(prevn + 1, nmax + 2)); rel = "larger"; } }
+        int kind; { double u = g.unit();
+            if (after_throw && u < 0.7) kind = 0;                    // compute(thrower); queries; compute(M3 ordinary)
+            else if (c == 0) kind = u < 0.62 ? 0 : u < 0.70 ? 1 : u < 0.86 ? 4 : u < 0.91 ? 5 : u < 0.96 ? 2 : 3;
+            else kind = u < 0.30 ? 0 : u < 0.45 ? 1 : u < 0.53 ? 2 : u < 0.60 ? 3 : u < 0.80 ? 4 : u < 0.87 ? 5 : u < 0.95 ? 6 : 7; }
+        if (kind == 5 && nmin > 1) kind = 0;
+        st.data = gen_hist_matrix(g, cls, n, kind, bigexp, st.pat, prev, prevn);
+        if (prevn > 0) rel = n == prevn ? "same" : n < prevn ? "smaller" : "larger";
+        st.n = n;
+        static const int VM[6] = {0, 1, 2, 3, 5, 6};
+        st.mode = VM[g.below(6)] + (g.coin(c == 0 ? 0.3 : 0.1) ? 10 : 0); st.vseed = (unsigned) g.below(1000000);
+        h.steps.push_back(st);
+        if (cnt) { cnt->count(std::string("hist_gen_kind_") + MKIND[kind]); cnt->count(std::string("hist_gen_size_") + rel); if (n == 1) cnt->count("hist_gen_n1"); }
+        after_throw = kind == 4;
+        prev = st.data; prevn = n;
+        queries(c + 1 == ncomp ? 1 : 0, 4);
+        if (g.coin(0.04)) { HStep x; x.kind = 'X'; x.rows = g.range(1, 4); x.cols = x.rows + g.range(1, 2); h.steps.push_back(x); queries(0, 2); }
+    }
+    return h;
+}
+
 static int pick_size(Rng& g, bool thorough) {
     if (thorough) { double u = g.unit(); if (u < 0.55) return g.range(2, 12); if (u < 0.9) return g.range(13, 32); return g.range(33, 64); }
     double u = g.unit(); if (u < 0.75) return g.range(2, 10); return g.range(11, 20);
@@ -317,6 +648,17 @@ int main(int argc, char** argv) {
     if (!a.replay.empty()) {
         std::ifstream f(a.replay); std::string t0((std::istreambuf_iterator<char>(f)), {}); std::string t; for (char ch : t0) if (!std::isspace((unsigned char) ch)) t += ch;   // indentation-insensitive
         std::string op = parse_str(t, "op"), sc = parse_str(t, "scalar"), pat = parse_str(t, "pattern");
+        if (op == "hist") {   // a history on one object: the replay carries the request line
+            auto pl = t0.find("\"line\""); Hist h; bool okp = false;
+            if (pl != std::string::npos) { auto q0 = t0.find('"', t0.find(':', pl)); auto q1 = q0 == std::string::npos ? q0 : t0.find('"', q0 + 1); if (q1 != std::string::npos) okp = parse_hist(t0.substr(q0 + 1, q1 - q0 - 1), h); }
+            if (okp) { if (sc == "float") run_hist_cls<float>(h, out, false); else if (sc == "longdouble") run_hist_cls<long double>(h, out, false); else run_hist_cls<double>(h, out, true); }
+            out.finish(); return out.nfail ? 1 : 0;
+        }
+        if (op == "probe_1x1") {
+            int pr = probe_tri_1x1();
+            if (pr) out.fail(pr == 1 ? "trideig-1x1-abort" : "trideig-1x1-wrong", "TridiagEigen<double>::compute on the 1x1 matrix [3] " + std::string(pr == 1 ? "terminated the process" : "returned wrong numbers"), "{\"op\":\"probe_1x1\",\"scalar\":\"double\",\"n\":1,\"pattern\":\"one_by_one\",\"size_class\":\"1\"}");
+            out.finish(); return out.nfail ? 1 : 0;
+        }
         auto pn = t.find("\"n\":"); int n = pn == std::string::npos ? 0 : std::atoi(t.c_str() + pn + 4);
         std::vector<double> data = parse_bits(t);
         if (n >= 1 && ((op == "trideig" && (int) data.size() == 2 * n - 1) || (op != "trideig" && (int) data.size() == n * n))) {
@@ -375,6 +717,22 @@ int main(int argc, char** argv) {
           for (int k = 0; k < 4; k++) v[k] = m == 0 ? g.sym() : m == 1 ? (double) g.range(-3, 3) : m == 2 ? std::ldexp(g.sym(), g.range(-60, 60)) : m == 3 ? (g.coin(0.3) ? 0.0 : g.sym()) : std::ldexp(g.sym(), g.range(-300, 300));
           if (v[2] == 0 && v[3] == 0) v[2] = 1.0;
           corr_cdiv(v[0], v[1], v[2], v[3], out);
+      }
+    }
+    // ---- histories on one object (reuse, views, accessor orders): three classes x three scalar types
+    { const int pr = probe_tri_1x1(); out.count("probe_trideig_1x1_ok", pr == 0);
+      if (pr) out.fail(pr == 1 ? "trideig-1x1-abort" : "trideig-1x1-wrong", "TridiagEigen<double>::compute on the 1x1 matrix [3] " + std::string(pr == 1 ? "terminated the process (child process; Eigen assertion / out-of-bounds read: maxCoeff() of the empty sub-diagonal)" : "returned wrong numbers"),
+                       "{\"op\":\"probe_1x1\",\"scalar\":\"double\",\"n\":1,\"pattern\":\"one_by_one\",\"size_class\":\"1\"}");
+      const bool tri1ok = pr == 0;
+      const int N = th ? 1500 : 160;
+      for (int cls = 0; cls < 3; cls++) for (int t = 0; t < N; t++) {
+          { std::ofstream lc(a.out + "/lastcase.txt"); lc << "hist cls=" << CLSNAME[cls] << " index=" << t; }
+          Rng g(a.seed, 95 + cls, t); Hist h = gen_hist(g, cls, 150, th, tri1ok, &out);
+          { std::ofstream lc(a.out + "/lastcase.txt"); lc << hist_line(h); }
+          run_hist_cls<double>(h, out, true); run_hist_cls<long double>(h, out, false);
+          Rng gf(a.seed, 98 + cls, t); Hist hf = gen_hist(gf, cls, 15, th, tri1ok, nullptr); for (HStep& st : hf.steps) round_to<float>(st.data);
+          { std::ofstream lc(a.out + "/lastcase.txt"); lc << hist_line(hf); }
+          run_hist_cls<float>(hf, out, false);
       }
     }
     for (int k = 0; k < 6; k++) out.count(std::string("maxratio_x1000_") + (k == 0 ? "trideig_res" : k == 1 ? "trideig_orth" : k == 2 ? "schur_res" : k == 3 ? "schur_orth" : k == 4 ? "hesseig_res" : "hesseig_unit"), (long) (g_max_ratio[k] * 1000));
